@@ -26,5 +26,29 @@ UNIT = {
             ("replace", "non_quoted_token(atom.chars())", "non_quoted_token(str_chars(atom))", "R7", False),
             ("replace", "result += &char_to_string(self.quoted, c);", "string_append(&mut result, &char_to_string(self.quoted, c));", "R12")],
          "wrap_pre": "impl HCPrinter {\n", "wrap_post": "}\n"},
+        # ---- canonical output (ignore_ops): R7 printer state reduced to the fields these methods touch; the
+        # methods they call are ghost-logged shims
+        {"fn": "is_numbered_var", "file": F_P, "rewrites": ["strip_head", "name_return", ("macro_fn", "atom", "atom_of", "R5")]},
+        {"fn": "format_clause", "impl": r"impl <.*Outputter : HCValueOutputter > HCPrinter <.*>", "file": F_P, "emit_name": "HCPrinter_format_clause",
+         "rewrites": ["strip_head", "name_return",
+            # R5: a macro in pattern position becomes a guard on a fresh binding
+            ("atom_pattern_guard", "atom_of"),
+            ("macro_fn", "atom", "atom_of", "R5")],
+         "wrap_pre": "impl HCPrinter {\n", "wrap_post": "}\n"},
+        {"fn": "handle_op_as_struct", "impl": r"impl <.*Outputter : HCValueOutputter > HCPrinter <.*>", "file": F_P, "emit_name": "HCPrinter_handle_op_as_struct",
+         "rewrites": ["strip_head", "name_return", ("macro_fn", "atom", "atom_of", "R5"),
+            # R6: the heap look-ahead with its number-classifying closure is one opaque query (UNVERIFIED)
+            ("replace", """self.iter.immediate_leaf_has_property(|addr| {
+                            match Number::try_from((addr, &self.arena.f64_tbl)) {
+                                Ok(Number::Integer(n)) => (*n).sign() == Sign::Positive,
+                                Ok(Number::Fixnum(n)) => n.get_num() >= 0,
+                                Ok(Number::Float(f)) => f >= OrderedFloat(0f64),
+                                Ok(Number::Rational(r)) => (*r).sign() == Sign::Positive,
+                                _ => false,
+                            }
+                        })""", "self.immediate_leaf_is_nonnegative_number()", "R6"),
+            # R16: a tuple pattern in closure-parameter position becomes a let-destructuring
+            ("replace", ".and_then(|(parent_op, last_item_idx)| {", ".and_then(|p_: (DirectedOp, usize)| -> (o_: Option<DirectedOp>) { let (parent_op, last_item_idx) = p_;", "R16")],
+         "wrap_pre": "impl HCPrinter {\n", "wrap_post": "}\n"},
     ],
 }
